@@ -210,6 +210,16 @@ fn scn_configs(o: &Opts, tr: &mut Tr, prop: &str) {
             }
         }
     }
+    if prop == "C10" || prop == "C02" {
+        // runs and repeats that start exactly at / next to multiples of the 32 KiB dictionary size
+        for (k, st) in [3usize, 0, 1, 4, 3, 2, 3].iter().enumerate() {
+            for lvl in [1u8, 6] {
+                let data = gen::data("wrapruns", 70_000 + k * 1000, &mut r);
+                let cfg = Cfg { zlib: k % 2 == 0, level: lvl, strat: *st, wbits: if k == 4 { 9 } else { 15 }, api: "params" };
+                stream_comp_case(tr, &format!("wrap-{}-l{}-{}", STRATS[*st].0, lvl, k), prop, &data, &cfg, &big_out_sched(), &mut r, "wrapruns");
+            }
+        }
+    }
     if prop == "C10" {
         // redundancy is exploited: X ++ X
         let sizes: Vec<usize> = if o.thorough { vec![1000, 2500, 5000, 16000, 30000] } else { vec![1000, 6000] };
@@ -344,7 +354,7 @@ fn scn_streamcomp(o: &Opts, tr: &mut Tr, prop: &str) {
     // where TLC judges it like any other
     let nbulk = if o.thorough { 5000 } else { 600 };
     for bi in 0..nbulk {
-        let kind = ["litmatch", "litmatch", "mixed", "text", "sparse3", "alpha4", "runs", "period3", "zeros"][bi % 9];
+        let kind = ["litmatch", "litmatch", "mixed", "text", "sparse3", "alpha4", "runs", "period3", "zeros", "wrapruns", "wrapruns"][bi % 11];
         let size = [60_000usize, 130_000, 200_000, 90_000, 32_768, 65_536, 33_000][bi % 7] + r.gen_range(0..5000) * (bi % 3);
         let data = gen::data(kind, size, &mut r);
         let lvl = [4u8, 5, 6, 7, 8, 9, 10, 1, 2, 3, 0][bi % 11];
